@@ -137,8 +137,10 @@ AheadDPark == /\ Cur("grpc.knock.ack") /\ drpc = "park" /\ drcur[1] = E.a
 AheadOpen == /\ l <= Len(Trace) /\ E.ev \in {"smux.accept.conn", "bcl.unblocked", "ret.dial"} /\ now = E.t
              /\ \E n \in Ids : dpc[n] = "open" /\ DOpen(n) /\ UNCHANGED runv /\ Ahead(<<"open", n>>)
 
+\* an event about an id names one of the case's ids (anything else is not a behaviour, not an evaluation error)
+IdOK == E.ev \in {"reset", "end", "bcl.unblocked", "smux.accept.conn", "smux.route", "call.accept", "ret.accept", "mux.listener.enter"} \/ E.a \in Ids
 TraceNext ==
-  \/ /\ l <= Len(Trace) /\ (E.ev = "reset" \/ now = E.t) /\ l' = l + 1
+  \/ /\ l <= Len(Trace) /\ (E.ev = "reset" \/ now = E.t) /\ l' = l + 1 /\ IdOK
      /\ (TReset \/ TSkip \/ TEnd \/ TCallDial \/ TCallDialAgain \/ TKnockSent \/ TLookup \/ TDRunRecv \/ TDRunPark \/ TKnockAck \/ TKnockTimeout
          \/ TOpened \/ TTWDeleted \/ TAcceptSlot \/ TRegistered \/ TAcceptListener \/ TAcceptLFK \/ TARunRecv \/ TARunPark
          \/ TLfkTook \/ TSmuxAcceptKnock \/ TCmuxAcceptKnock \/ TLfkAccepted \/ TLfkAcked \/ TSmuxConn \/ TSmuxRoute
